@@ -71,7 +71,9 @@ def build_one(exe, rng, idx):
             h.send("radput %d" % rng.randrange(2))
         elif r < 0.985:
             # the unanswered count near its ceiling and near the end of its octet: abandoning a request there leaves it where it is
-            h.send("srvstate %s 2 %d" % (name, (255, 15, 255, 16, 254)[int(r * 100000) % 5]))
+            # (… also while the connection of a stream server is being re-established: requests run out of retries then, too)
+            st = 3 if ty != 0 and int(r * 1000000) % 2 else 2
+            h.send("srvstate %s %d %d" % (name, st, (255, 15, 255, 16, 254, 0, 3)[int(r * 100000) % 7]))
         else:
             # answer a status-server probe if one is outstanding (slot 0)
             h.send("pop 0")
